@@ -86,7 +86,7 @@ func c15(c *Ctx) {
 				for _, in := range b.Instrs {
 					if bo, ok := in.(*ssa.BinOp); ok && (bo.Op == token.NEQ || bo.Op == token.EQL) {
 						if s, ok := cfgx.ConstString(bo.Y); ok && s == "True" {
-							if r, p, okp := flow.AccessPath(bo.X); okp && p == "Status" {
+							if r, p, okp := flow.AccessPathC(bo.X); okp && p == "Status" {
 								isVerified := flow.Default.Any(r, func(v ssa.Value) bool {
 									ci, ok := v.(*ssa.Call)
 									if !ok || !strings.HasSuffix(cfgx.CalleeName(ci), ".GetCondition") {
@@ -461,7 +461,7 @@ func c15(c *Ctx) {
 			for _, in := range b.Instrs {
 				if bo, ok := in.(*ssa.BinOp); ok && bo.Op == token.EQL {
 					if s, ok := cfgx.ConstString(bo.Y); ok && s == "package.yaml" {
-						if _, p, okp := flow.AccessPath(bo.X); okp && p == "Name" {
+						if _, p, okp := flow.AccessPathC(bo.X); okp && p == "Name" {
 							t, _ := cfgx.CondEdges(bo)
 							for _, bb := range ib.Blocks {
 								if r, ok := bb.Instrs[len(bb.Instrs)-1].(*ssa.Return); ok && nonNilError(r) == "nil" {
@@ -485,7 +485,7 @@ func c15(c *Ctx) {
 		for _, b := range sr.Blocks {
 			for _, in := range b.Instrs {
 				if bo, ok := in.(*ssa.BinOp); ok && bo.Op == token.EQL && cfgx.IsNilConst(bo.Y) {
-					if _, p, okp := flow.AccessPath(bo.X); okp && p == "Cosign" {
+					if _, p, okp := flow.AccessPathC(bo.X); okp && p == "Cosign" {
 						t, _ := cfgx.CondEdges(bo)
 						noCfg = append(noCfg, t...)
 					}
@@ -528,7 +528,7 @@ func c15(c *Ctx) {
 			for _, b := range st.Blocks {
 				for _, in := range b.Instrs {
 					if bo, ok := in.(*ssa.BinOp); ok && (bo.Op == token.EQL || bo.Op == token.NEQ) && cfgx.IsNilConst(bo.Y) {
-						if _, p, okp := flow.AccessPath(bo.X); okp && strings.HasSuffix(p, "Verification.Cosign") {
+						if _, p, okp := flow.AccessPathC(bo.X); okp && strings.HasSuffix(p, "Verification.Cosign") {
 							t, f := cfgx.CondEdges(bo)
 							if bo.Op == token.EQL {
 								hasCosign = append(hasCosign, f...)
